@@ -3,6 +3,7 @@ package vg
 import (
 	"go/token"
 	"go/types"
+	"strings"
 
 	"golang.org/x/tools/go/ssa"
 )
@@ -327,6 +328,95 @@ func runC20(c *Ctx) {
 	}
 	c.Check(nLookups >= 2, "C20.4", FuncName(cug), "method-types-checked", cug.Pos(),
 		"input and output types of the methods are looked up in the global registry", "the global registry is not consulted for both input and output types of the methods")
+
+	// ---------------------------------------------------------------- C20.5
+	// A decision taken by comparing two descriptor VALUES (interface identity) separates a schema
+	// loaded from a descriptor set from the same schema in generated code: the descriptors are
+	// content-equal but distinct objects.  Only the resolver choice may (and must) look at identity.
+	c.Rule("C20.5", "no decision by descriptor identity outside the resolver choice (schemas are compared by name / content)", 1)
+	nCmp := 0
+	for _, fn := range p.Funcs {
+		if !p.inScope(fn) {
+			continue
+		}
+		ForEachInstr(fn, func(in ssa.Instruction) {
+			b, ok := in.(*ssa.BinOp)
+			if !ok || (b.Op != token.EQL && b.Op != token.NEQ) {
+				return
+			}
+			if IsNilConst(b.X) || IsNilConst(b.Y) {
+				return
+			}
+			if !isDescriptorIface(b.X.Type()) || !isDescriptorIface(b.Y.Type()) {
+				return
+			}
+			nCmp++
+			if fn != cug && identityOnlySelectsFastPath(b) {
+				c.Exception(FuncName(fn)+": descriptor identity", "identity only selects proto.Merge as a shortcut; the non-identical edge re-marshals the value on every path (same result by content)")
+				c.OK("C20.5", FuncName(fn), "descriptor-identity-compare", b.Pos(), "identity selects a shortcut; the other edge converts by content (Marshal/Unmarshal) on every path")
+				return
+			}
+			c.Check(fn == cug, "C20.5", FuncName(fn), "descriptor-identity-compare", b.Pos(),
+				"descriptor identity is compared only where the generated-type resolver is chosen",
+				"two descriptors are compared by identity: a schema loaded from a descriptor set (content-equal, distinct objects) takes the other branch than the same schema from generated code")
+		})
+	}
+	if nCmp == 0 {
+		c.Bad("C20.5", FuncName(cug), "descriptor-identity-compare", cug.Pos(), "the resolver choice no longer compares file identity (expected one identity comparison): shape changed")
+	}
+}
+
+// identityOnlySelectsFastPath: the comparison feeds an If whose not-identical successor passes
+// proto.Marshal on every path to a return (conversion by content), and whose identical
+// successor calls proto.Merge.
+func identityOnlySelectsFastPath(b *ssa.BinOp) bool {
+	for _, ref := range *b.Referrers() {
+		iff, ok := ref.(*ssa.If)
+		if !ok {
+			continue
+		}
+		same, diff := iff.Block().Succs[0], iff.Block().Succs[1]
+		if b.Op == token.NEQ {
+			same, diff = diff, same
+		}
+		isCall := func(names ...string) func(ssa.Instruction) bool {
+			return func(in ssa.Instruction) bool {
+				ci, ok := in.(ssa.CallInstruction)
+				return ok && IsCallTo(ci, names...)
+			}
+		}
+		if len(diff.Instrs) == 0 || len(same.Instrs) == 0 {
+			return false
+		}
+		// not-identical: Marshal unavoidable
+		marshalFirst := isCall("google.golang.org/protobuf/proto.Marshal")(diff.Instrs[0])
+		if !marshalFirst {
+			if found, _ := (PathQuery{Target: IsReturn, Avoid: isCall("google.golang.org/protobuf/proto.Marshal")}).Search(b.Parent(), diff.Instrs[0]); found {
+				return false
+			}
+		}
+		// identical: Merge
+		hasMerge := false
+		for _, in := range same.Instrs {
+			if isCall("google.golang.org/protobuf/proto.Merge")(in) {
+				hasMerge = true
+			}
+		}
+		return hasMerge
+	}
+	return false
+}
+
+// isDescriptorIface: an interface type declared in protoreflect whose name ends in "Descriptor".
+func isDescriptorIface(t types.Type) bool {
+	n, ok := t.(*types.Named)
+	if !ok {
+		return false
+	}
+	if _, isIface := n.Underlying().(*types.Interface); !isIface {
+		return false
+	}
+	return n.Obj().Pkg() != nil && n.Obj().Pkg().Path() == "google.golang.org/protobuf/reflect/protoreflect" && strings.HasSuffix(n.Obj().Name(), "Descriptor")
 }
 
 func isParentFile(v ssa.Value) bool {
